@@ -36,7 +36,7 @@ def load_reaction(name, formalism):
 
         rng = random.Random(int(name.split(":")[1]))
         while True:
-            spec = U.synth_spec(rng, nfs=3, formalism=formalism, helset="full")
+            spec = U.synth_spec(rng, nfs=3, formalism=formalism, helset="full", ntop=1)
             if spec and 6 <= len(spec["transitions"]) <= 60:
                 break
         r = ampl.make_reaction(spec)
